@@ -343,6 +343,10 @@ where
             let (mut res_dft_tmp, scratch_2) = scratch_1.take_vec_znx_dft(self, cols_out, pmat.size());
             res_dft_tmp.zero();
 
+            // The first product is written at a reduced size when dsize > 2 and the limbs it skips
+            // are only ever accumulated into: they must not start from whatever `res` held before.
+            res.zero();
+
             for di in 0..dsize {
                 // Sets ai_dft size according to the current digit (if dsize does not divides a_size),
                 // bounded by the number of rows (digits) in the prepared matrix.
